@@ -107,7 +107,8 @@ def _subprocess_histories(ctx, e2e):
                 planted = set()
                 if dk != "clean":
                     # always plant an entry named like the very crystal system of this run (packaged data must not be shadowed)
-                    for nm in [ds.system] + [str(x) for x in rng.choice(HOSTILE_ENTRIES, size=6, replace=False) if str(x) != ds.system]:
+                    for nm in [ds.system, os.path.basename(cfg["qha"]["input"]), os.path.basename(cfg["elast"]["input"])] + \
+                            [str(x) for x in rng.choice(HOSTILE_ENTRIES, size=5, replace=False) if str(x) not in (ds.system, "input01")]:
                         as_dir = dk == "unrelated-dirs" or (dk in ("both", "readonly-extra") and rng.random() < 0.5)
                         if as_dir:
                             os.makedirs(os.path.join(rd, nm), exist_ok=True)
@@ -159,7 +160,8 @@ def _subprocess_histories(ctx, e2e):
                 shutil.rmtree(rd, ignore_errors=True)
 
 
-OPS = ["construct-A", "construct-B", "read-A", "read-B", "reread-A", "reread-B", "write-A", "write-B", "construct-C", "fill-table", "read-C"]
+OPS = ["construct-A", "construct-B", "read-A", "read-B", "reread-A", "reread-B", "write-A", "write-B", "construct-C", "fill-table", "read-C",
+       "override-A", "override-B"]
 
 
 def _inprocess_histories(ctx, e2e):
@@ -260,6 +262,17 @@ def _inprocess_histories(ctx, e2e):
                                     ctx.violation("history-dependent-output-files", f"files of calculator {who} after history {trace} differ from a fresh process: {diff}",
                                                   hid, {"history": trace})
                                     ok = False
+                            elif kind == "override" and who in calcs:
+                                # documented dict-form output entries with unit / file-name overrides, written to a throw-away directory
+                                od = os.path.join(e2e.tmp, "hist-override")
+                                shutil.rmtree(od, ignore_errors=True)
+                                os.makedirs(od)
+                                os.chdir(od)
+                                calcs[who].pressure_base.write_variables([{"keyword": "bm_VRH", "unit": "kbar", "fname": "k.txt"}, {"keyword": "cij", "unit": "Pa"},
+                                                                          {"keyword": "v", "unit": "bohr^3"}])
+                                calcs[who].volume_base.write_variables([{"keyword": "p", "unit": "kbar", "fname": "p.txt"}, {"keyword": "bm_V", "fname": "b.txt"}])
+                                os.chdir(e2e.tmp)
+                                trace.append(op)
                             elif kind == "fill":
                                 system = laue.SYSTEMS[int(rng_h.integers(0, 9))]
                                 field = FT.invariant_field(rng_h, system, 3)
